@@ -218,3 +218,13 @@ prop("C16", run="^TestC16", level="fault_enumeration",
      text="Fault enumeration at every script step boundary, randomised sessions and generated schedules at hook points; liveness is judged with generous bounds, interleavings are sampled.",
      note="Trusted: goroutine accounting by stack inspection; the schedule controller only delays, it never decides a verdict.",
      technique="fault-injection property testing (rapid) with enumerated fault points and generated hook-point schedules; subprocess isolation", design="DESIGN.md 4 C16, 3.9")
+
+prop("C18", run="^TestC18", level="exploration", race=True,
+     quick=(8, 20, 1200), thorough=(16, 1500, 10800),
+     rule="rounds of 2..16 goroutines x 1..12 generated work items x 1..6 repeats on SHARED instances: one frame.RawCodec per compressor {none, LZ4, Snappy}, one segment.Codec per {none, LZ4}, the package-level message codecs, the datacodec singletons and cached nested codecs (NewCodec results shared by type), "
+          "the compressor values. Work items: frame encode+decode, segment encode+decode, message Encode/EncodedLength/Decode, CQL value Encode/Decode through a drawn representation, compress+decompress in both LZ4 formats and Snappy; per-goroutine yields drawn by rapid; all goroutines released from one barrier. "
+          "Oracle: each concurrent result == the result of the same call made sequentially beforehand (digest of bytes, or canonical frame / abstract value where map order is free); built with -race, any race report fails the run. Every round is non-trivial (>= 2 goroutines on shared instances); distinct by round parameters and item kinds",
+     assumptions=["interleavings are sampled by the Go scheduler (no hook points in the codec packages); the race detector's happens-before analysis is what exposes a shared scratch buffer without the exact overlap"],
+     text="Randomised concurrent stress under the race detector with result comparison against sequential execution.",
+     note="Trusted: the Go race detector; sequential results as reference.",
+     technique="property-based concurrent stress (rapid-generated workloads) under the race detector with sequential-equivalence oracle", design="DESIGN.md 4 C18")
